@@ -172,6 +172,19 @@ func (g *Generator) generateMockFieldAssignments(
 ) {
 	messageName := string(message.Desc.Name())
 
+	// A message that (directly or mutually) contains itself would recurse forever:
+	// leave the nested occurrence at its zero value.
+	fullName := string(message.Desc.FullName())
+	if g.mockVisiting[fullName] {
+		gf.P("// ", varName, ": recursive message ", messageName, " left at its zero value")
+		return
+	}
+	if g.mockVisiting == nil {
+		g.mockVisiting = make(map[string]bool)
+	}
+	g.mockVisiting[fullName] = true
+	defer delete(g.mockVisiting, fullName)
+
 	for _, field := range message.Fields {
 		fieldName := field.GoName
 		fieldPath := messageName + "." + string(field.Desc.Name())
